@@ -46,7 +46,7 @@ for c in $CHECKS; do
   RESULT="$RESULT $c:rc=$rc"
 done
 git -C /repo checkout -- .
-D=/verif/seeded/$P-$DK; mkdir -p $D; cp $SRC/* $D/
+D=/verif/seeded/${DSTP:-$P}-$DK; mkdir -p $D; cp $SRC/* $D/
 python3 - <<PY
 import json
 m=json.load(open('$D/meta.json'))
